@@ -48,6 +48,19 @@ class Tok:
         return hash(self.name)
 
 
+def with_kwargs(fn):
+    """Marks a `__methods__` handler as taking (receiver, positional values, keyword values)."""
+    fn.__gsa_kwargs__ = True
+    return fn
+
+
+class PyIter:
+    """An iterator object created by iter(<list>) inside interpreted code."""
+
+    def __init__(self, items: list):
+        self.items = items
+
+
 def _walk_own(fn: ast.AST):
     """Nodes of a function, not descending into nested functions / lambdas / classes."""
     stack = list(ast.iter_child_nodes(fn))
@@ -683,6 +696,8 @@ class PyEval(MiniEval):
             if isinstance(recv, Tok):
                 h = recv.attrs.get("__methods__", {}).get(m)
                 if h is not None:
+                    if getattr(h, "__gsa_kwargs__", False):  # handler declared with @with_kwargs: also gets the keyword arguments
+                        return h(recv, A(), {k.arg: self.ev(k.value, env) for k in node.keywords if k.arg})
                     return h(recv, A())
                 for c in recv.attrs.get("__classes__", ()):
                     fm = c.find_method(m)
@@ -759,6 +774,14 @@ class PyEval(MiniEval):
                 # would make every later conclusion wrong)
                 raise Unsupported(f"method {type(recv).__name__}.{m}")
             return Opaque(ast.unparse(node)[:50])
+        if fn in ("str", "repr") and len(node.args) == 1 and not node.keywords:
+            v = A()[0]
+            if isinstance(v, Tok):
+                # the printed form of a modelled object: `__str__` if the model gives one (two objects may print alike), else its name
+                return v.attrs["__str__"] if isinstance(v.attrs.get("__str__"), str) else v.name
+            if isinstance(v, (str, int, float, bool)) or v is None:
+                return str(v) if fn == "str" else repr(v)
+            raise Unsupported(f"{fn} of {v!r}")
         if fn == "isinstance" and len(node.args) == 2:
             v, t = A()
             if isinstance(v, Opaque):
@@ -782,6 +805,22 @@ class PyEval(MiniEval):
             if isinstance(v, (Opaque, Tok)):
                 raise Unsupported("type() of symbolic value")
             return type(v)
+        if fn == "iter" and len(node.args) == 1 and not node.keywords:
+            v = self.ordered(A()[0])
+            if isinstance(v, dict):
+                v = list(v)
+            if isinstance(v, (list, tuple)):
+                return PyIter(list(v))
+            if isinstance(v, PyIter):
+                return v
+            raise Unsupported(f"iter of {v!r}")
+        if fn == "next" and len(node.args) in (1, 2) and not node.keywords and isinstance(A()[0], PyIter):
+            it_ = A()[0]
+            if it_.items:
+                return it_.items.pop(0)
+            if len(node.args) == 2:
+                return A()[1]
+            raise Raised("StopIteration", "StopIteration")
         if fn == "len" and len(node.args) == 1:
             v = A()[0]
             if isinstance(v, (list, tuple, str, dict, set, frozenset)):
